@@ -252,7 +252,7 @@ def run_scenario(sc, chooser=None, seed=0, max_steps=8000, horizon_ticks=1400):
     for vt in sched.vts:
         if vt.exc is not None:
             viol.append("unexpected exception in %s: %r %s" % (vt.name, vt.exc, "".join(traceback.format_tb(vt.exc.__traceback__)[-3:])))
-    return {"lines": lines, "outcome": outcome, "monitor": sorted(set(viol)), "choices": list(sched.choices), "steps": sched.steps,
+    return {"lines": lines, "outcome": outcome, "monitor": sorted(set(viol)), "choices": list(sched.choices), "cand_counts": list(sched.cand_counts), "steps": sched.steps,
             "switches": sched.context_switches, "stuck": stuck}
 
 
